@@ -86,6 +86,36 @@ class Ref:
         del self.vals[p]
 
 
+BRANCH = {}
+
+
+def _hit(name):
+    BRANCH[name] = BRANCH.get(name, 0) + 1
+
+
+def _classify_hint(c, p, k):
+    """which branch of insert(position, key, value) the op takes (evidence: branch_hits)"""
+    n = len(c.keys)
+    kind = "multi" if c.multi else "map"
+    if p == n:
+        _hit(f"{kind}:end-" + ("empty" if n == 0 else ("hit" if k > c.keys[-1] else "fallback")))
+        return
+    hk = c.keys[p]
+    if k < hk:
+        ok = p == 0 or (k >= c.keys[p - 1] if c.multi else k > c.keys[p - 1])
+        _hit(f"{kind}:before-" + ("hit" if ok else "fallback"))
+    elif c.multi or k > hk:
+        if p + 1 == n:
+            _hit(f"{kind}:after-hit-last")
+        elif c.multi and k == c.keys[p + 1]:
+            _hit(f"{kind}:after-hit-equal-run")
+        else:
+            ok = k <= c.keys[p + 1] if c.multi else k < c.keys[p + 1]
+            _hit(f"{kind}:after-" + ("hit" if ok else "fallback"))
+    else:
+        _hit(f"{kind}:replace-at-hint")
+
+
 def _ret_pos(line):
     m = re.match(r"it=(\d+) ", line or "")
     return int(m.group(1)) if m else None
@@ -123,6 +153,7 @@ def reference(hist, impl_out):
             if p > n0:
                 out.append("bad-op")
                 continue
+            _classify_hint(c, p, k)
             if not c.multi:
                 ret = f"it={c.insert(k, v)}"
             else:
@@ -167,12 +198,12 @@ def reference(hist, impl_out):
                 out.append("bad-op")
                 continue
             ret = f"v={c.vals[0] if op == 'front' else c.vals[-1]}"
-        elif op in ("assign", "insall"):
+        elif op in ("assign", "insall", "copy"):
             j = a[0]
             if j == ci or j not in (0, 2) or ci == 1:
                 out.append("bad-op")
                 continue
-            if op == "assign":
+            if op in ("assign", "copy"):
                 c.keys, c.vals = list(cs[j].keys), list(cs[j].vals)
             else:
                 for k, v in zip(list(cs[j].keys), list(cs[j].vals)):
@@ -328,7 +359,7 @@ def gen_random(rng, length, nkeys, lvl=2, wb=False):
             elif r < 17: h.append(f"{c} clear"); size[c] = 0
             elif r < 19:
                 if c != 1:
-                    h.append(f"{c} assign {2 - c}"); size[c] = size[2 - c]
+                    h.append(f"{c} {rng.choice(['assign', 'assign', 'copy'])} {2 - c}"); size[c] = size[2 - c]
             elif r < 21:
                 if c != 1:
                     h.append(f"{c} insall {2 - c}"); size[c] += size[2 - c]
@@ -445,6 +476,7 @@ def check(ctx):
         ctx.cov["op_histogram"] = ops
         ctx.cov["samples"] = [" ; ".join(h)[:600] for h in (hs[len(hs) // 3: len(hs) // 3 + 2] + hs[len(hs) // 2: len(hs) // 2 + 2] + hs[-60:-58])]
         diffs = C.differential(ctx, harness, C.driver_path(DRIVER), hs, reference, C.default_eq, nontrivial=nontrivial, timeout=600)
+        ctx.cov["branch_hits"] = dict(sorted(BRANCH.items()))
         ctx.log(f"{len(hs)} histories, {ctx.cov['evaluations']} op lines, {len(diffs)} disagreement(s)")
         C.report_diffs(ctx, diffs, harness, C.driver_path(DRIVER), reference, C.default_eq, "avl-ops")
     finally:
